@@ -7,6 +7,8 @@ use crate::rng::SplitMix;
 use crate::selcommon::*;
 use crate::shard::run_sharded;
 use crate::Cfg;
+use ec_core::individual::ec::EcIndividual;
+use ec_core::test_results::{Score, TestResults};
 use ec_core::operator::selector::{best::Best, random::Random, tournament::Tournament, worst::Worst, Selector};
 use rand::prelude::IndexedRandom;
 use rand::RngCore;
@@ -219,5 +221,45 @@ pub fn run(cfg: &Cfg) -> Report {
     rep.merge(ex);
     if prop.is_empty() || prop == "C07" { law_block(&mut rep, seed, if cfg.thorough { 1000000 } else { 50000 }); }
     rep.notes.push("exhaustive scope: all 120 populations of 1..=4 individuals with keys in {0,1,2}, every tournament size, both polarities".into());
+    large_tied_populations(&mut rep, seed);
     rep
+}
+
+/// Populations of 2^16 and more individuals with few distinct scores (ties everywhere, every individual a different
+/// genome): (a) three runs from equal generator states select the *same individual* and leave equal states (nothing but
+/// the generator decides ties); (b) the individual is the one the model's rule gives on the same stream - the best of
+/// the sample `choose_multiple` draws, the last one among equals (`Iterator::max`), Best / Worst: last maximum / first
+/// minimum.  Model-free (the rule is replayed here on a clone of the generator).
+fn large_tied_populations(rep: &mut Report, seed: u64) {
+    for (ci, n) in [65_535usize, 65_536, 70_001, 131_073].into_iter().enumerate() {
+        let mut g = SplitMix::derive(seed ^ 0x7A11, ci as u64);
+        let pop: Vec<IndS> = (0..n).map(|j| { let k = g.below(3) as i64; EcIndividual::new(j, TestResults { results: vec![Score(k)], total_result: Score(k) }) }).collect();
+        let idx = |r: &IndS| r.genome;   // genomes are the positions
+        for k in [1usize, 2, 7, 16, 40] {
+            let t = Tournament::new(NonZeroUsize::new(k).unwrap());
+            let base = SplitMix::derive(seed ^ 0x7A12, (ci * 64 + k) as u64);
+            let runs: Vec<(Result<usize, String>, u64)> = (0..3).map(|_| { let mut r = base.clone(); let v = t.select(&pop, &mut r).map(idx).map_err(|e| e.to_string()); (v, r.next_u64()) }).collect();
+            rep.case(&format!("large tied population {n} tournament {k}"), true);
+            rep.hit("large tied population (oracle only)");
+            if runs[1] != runs[0] || runs[2] != runs[0] {
+                rep.violate(json!({"prop": "C16", "case": format!("Tournament of size {k} on {n} individuals with scores in {{0,1,2}} and pairwise different genomes, three runs from equal generator states"),
+                    "first": format!("{:?}", runs[0]), "other": format!("{:?} / {:?}", runs[1], runs[2]), "what": "runs from equal generator states select different individuals (something other than the generator breaks the ties)"}));
+            }
+            let mut shadow = base.clone();
+            let sample: Vec<&IndS> = pop.choose_multiple(&mut shadow, k).collect();
+            let want = sample.into_iter().max().map(idx);
+            let same_state = shadow.next_u64() == runs[0].1;
+            if runs[0].0.as_ref().ok() != want.as_ref() || !same_state {
+                rep.disagree(json!({"case": format!("Tournament of size {k} on {n} tied individuals"), "real": format!("{:?}", runs[0].0), "impl": format!("{want:?} (best of the choose_multiple sample, last among equals); same generator state afterwards: {same_state}")}));
+            }
+        }
+        let mut r1 = SplitMix::derive(seed, 1);
+        let best = Best.select(&pop, &mut r1).map(idx).ok();
+        let worst = Worst.select(&pop, &mut r1).map(idx).ok();
+        let want_best = pop.iter().enumerate().filter(|(_, i)| i.test_results.total_result.0 == 2).map(|(j, _)| j).last();
+        let want_worst = pop.iter().position(|i| i.test_results.total_result.0 == 0);
+        if best != want_best || worst != want_worst {
+            rep.disagree(json!({"case": format!("Best / Worst on {n} tied individuals"), "real": format!("{best:?} / {worst:?}"), "impl": format!("{want_best:?} / {want_worst:?} (Iterator::max keeps the last maximum, min the first minimum)")}));
+        }
+    }
 }
